@@ -114,6 +114,51 @@ func c10Deep(depth int) *circuit.Circuit {
 	return c
 }
 
+// c10Wide builds levels of w AND gates each (w above the offline batch size
+// and not a multiple of 64), every level fed by the previous one and kept
+// lively by XORs with input bits; the last level is the output. Enough ANDs
+// to use up everything the offline phase dealt before the first wide level.
+func c10Wide(w, levels int) *circuit.Circuit {
+	u64 := types.Info{Type: types.TUint, IsConcrete: true, Bits: 64, MinBits: 64}
+	out := types.Info{Type: types.TUint, IsConcrete: true, Bits: types.Size(w), MinBits: types.Size(w)}
+	c := &circuit.Circuit{Inputs: circuit.IO{{Name: "x", Type: u64}, {Name: "y", Type: u64}}, Outputs: circuit.IO{{Name: "r", Type: out}}}
+	next := circuit.Wire(128)
+	add := func(op circuit.Operation, a, b circuit.Wire) circuit.Wire {
+		c.Gates = append(c.Gates, circuit.Gate{Op: op, Input0: a, Input1: b, Output: next})
+		c.Stats[op]++
+		next++
+		return next - 1
+	}
+	x := func(i int) circuit.Wire { return circuit.Wire(i % 64) }
+	y := func(i int) circuit.Wire { return circuit.Wire(64 + i%64) }
+	prev := make([]circuit.Wire, w)
+	for j := range prev {
+		prev[j] = add(circuit.XOR, x(j), y(j/64+j))
+	}
+	for l := 0; l < levels; l++ {
+		cur := make([]circuit.Wire, w)
+		if l == levels-1 {
+			// the output wires are the last wires of the circuit, in order
+			ms := make([][2]circuit.Wire, w)
+			for j := range cur {
+				ms[j] = [2]circuit.Wire{add(circuit.XOR, prev[j], x(j+l)), add(circuit.XOR, prev[(j+1)%w], y(j+3*l))}
+			}
+			for j := range cur {
+				cur[j] = add(circuit.AND, ms[j][0], ms[j][1])
+			}
+		} else {
+			for j := range cur {
+				cur[j] = add(circuit.AND, add(circuit.XOR, prev[j], x(j+l)), add(circuit.XOR, prev[(j+1)%w], y(j+3*l)))
+			}
+		}
+		prev = cur
+	}
+	c.NumGates = len(c.Gates)
+	c.NumWires = int(next)
+	c.AssignLevels(utils.TargetGMW)
+	return c
+}
+
 func runC10(cs *vrt.Case) {
 	r := cs.Rng
 	P := 2 + cs.Idx%4
@@ -143,6 +188,21 @@ func runC10(cs *vrt.Case) {
 			inputs = append(inputs, v)
 		}
 		cs.Count("deep_circuit_and_levels", int64(depth))
+	} else if !triples && cs.Idx%32 == 22 {
+		// AND levels wider than the offline batch size and not a multiple of
+		// 64 gates, and enough of them to use up what was dealt before
+		P = 2
+		what = "wide AND levels"
+		w := []int{8193, 8255, 9001, 12345}[(cs.Idx/32)%4]
+		levels := 500000/w + 2
+		for i := 0; i < P; i++ {
+			circs = append(circs, c10Wide(w, levels))
+		}
+		for i := 0; i < P; i++ {
+			inputs = append(inputs, r.Big(64))
+		}
+		cs.Count("wide_level_circuits", 1)
+		cs.Count("wide_level_and_gates", int64(w*levels))
 	} else if !triples && cs.Idx%16 == 5 {
 		// a party without input bits: an unsized []byte argument instantiated with
 		// length 0 (a party that only wants the result), at a PRNG position
@@ -297,7 +357,7 @@ func runC10(cs *vrt.Case) {
 	}
 	// 0-2 further sessions with fresh inputs on the same mesh (not for the deep circuits: 6 s each)
 	var moreInputs [][]*big.Int
-	if !triples && what != "deep AND chain" {
+	if !triples && what != "deep AND chain" && what != "wide AND levels" {
 		for k := r.Intn(3); k > 0; k-- {
 			var in []*big.Int
 			for i := 0; i < P; i++ {
@@ -497,7 +557,7 @@ func runC10(cs *vrt.Case) {
 		}
 		for k := range want {
 			if res[i].out[k].Cmp(want[k]) != 0 {
-				cs.Violate("C10|wrong-output", fmt.Sprintf("party %d of %d: output %d = %s, plain evaluation of the circuit gives %s", i, P, k, res[i].out[k].Text(16), want[k].Text(16)), map[string]any{"case": desc})
+				cs.Violate("C10|wrong-output", fmt.Sprintf("party %d of %d: output %d = %s, plain evaluation of the circuit gives %s", i, P, k, trunc(res[i].out[k].Text(16), 80), trunc(want[k].Text(16), 80)), map[string]any{"case": desc})
 				return
 			}
 		}
